@@ -188,3 +188,33 @@ Proof.
   - intros [t [Hin Hs]]. exists (o, t). split; [reflexivity|]. apply filter_In. split; [exact Hin|]. simpl.
     rewrite subtypeb_is_sub_type_lemma. apply (closure_lemma gs tr _ Hwf Hp), Hs.
 Qed.
+
+(* problem facts / fluents on such a domain: accepted iff every argument's declared type is a SUBTYPE (spec
+   relation) of the parameter's type at the same position *)
+Lemma site_fact_subtype_lemma : forall gs tr (dom : mdomain) objs p args,
+  wf_section gs tr -> parse_types (render gs tr) = Ok (d_types dom) ->
+  (problem_fact dom objs p args = Ok tt <->
+   exists sg tys, dget (d_preds dom) p = Some sg /\ List.length args = List.length sg /\
+                  mapM (type_of_name dom objs) args = Ok tys /\
+                  forall t r, In (t, r) (combine tys (dvalues sg)) -> subtype (decls gs tr) t r).
+Proof.
+  intros gs tr dom objs p args Hwf Hp. rewrite problem_fact_lemma. split.
+  - intros [sg [tys [H1 [H2 [H3 H4]]]]]. exists sg, tys. repeat split; try assumption.
+    intros t r Hin. apply (closure_lemma gs tr _ Hwf Hp), H4, Hin.
+  - intros [sg [tys [H1 [H2 [H3 H4]]]]]. exists sg, tys. repeat split; try assumption.
+    intros t r Hin. apply (closure_lemma gs tr _ Hwf Hp), H4, Hin.
+Qed.
+
+Lemma site_fluent_subtype_lemma : forall gs tr (dom : mdomain) objs f args,
+  wf_section gs tr -> parse_types (render gs tr) = Ok (d_types dom) ->
+  (problem_fluent dom objs f args = Ok tt <->
+   exists sg tys, dget (d_funcs dom) f = Some sg /\ List.length args = List.length sg /\
+                  mapM (type_of_name dom objs) args = Ok tys /\
+                  forall t r, In (t, r) (combine tys (dvalues sg)) -> subtype (decls gs tr) t r).
+Proof.
+  intros gs tr dom objs f args Hwf Hp. rewrite problem_fluent_lemma. split.
+  - intros [sg [tys [H1 [H2 [H3 H4]]]]]. exists sg, tys. repeat split; try assumption.
+    intros t r Hin. apply (closure_lemma gs tr _ Hwf Hp), H4, Hin.
+  - intros [sg [tys [H1 [H2 [H3 H4]]]]]. exists sg, tys. repeat split; try assumption.
+    intros t r Hin. apply (closure_lemma gs tr _ Hwf Hp), H4, Hin.
+Qed.
